@@ -730,6 +730,11 @@ pub fn gen_script(r: &mut Rng, flavor: &str) -> String {
                         // a block that is not outstanding (duplicate / future / foreign offset)
                         let (b, l) = *r.pick(&s.blocks);
                         format!("f:pb,{},{},{},{}>Ig", s.idx, s.len, b, l)
+                    } else if k == 9 && r.coin() && !s.outstanding.is_empty() {
+                        // a block of *another* piece with exactly the offset and length of an outstanding request (an answer
+                        // that was on its way when the assignment changed): not an answer to anything
+                        let (b, l) = *r.pick(&s.outstanding);
+                        format!("f:pb,{},{},{},{}>Ig", (s.idx + 1 + r.below(np as u64 - 1) as usize) % np, s.len, b, l)
                     } else if k == 9 {
                         format!("f:pc,{},{},{}>Ig", (s.idx + 1) % np, 0, hex(&r.bytes(16)))
                     } else if k == 10 {
